@@ -45,3 +45,13 @@ let () =
       else if c <> "ok" then Viol "a session with a generous Timeout failed after another session had used the default net dialer with a tiny one"
       else Pass true
     | _ -> Diff "malformed line")
+
+let () =
+  (* C17HX: the values of one handshake result are what the peer sent and do not share memory with each other *)
+  register "C17HX" (fun i o -> match o with
+    | ["err"; _; _] -> Diff "handshake failed in the harness"
+    | ["ok"; equal; shared] ->
+      if equal <> "1" then Viol "returned extensions / parameters are not those the peer sent (several parameterised extensions in one header line)"
+      else if shared <> "0" then Viol "two values of one handshake result share memory: a write through one shows up in the other"
+      else Pass true
+    | _ -> Diff "malformed line")
